@@ -58,6 +58,8 @@ def stiffness_letters(seed):
         ("aniso", np.array([5.0, 1.0, 1.0]), np.array([0.5, 2.0, 2.0])),
         ("generic", g[:3], g[3:]),
         ("steel_like", np.array([1.0e4, 4.0e3, 4.2e3]), np.array([2.0, 1.5, 1.1])),
+        # integer-dtype stiffness arrays, as the library's own cantilever script passes them (np.array([5, 1, 1]))
+        ("int_dtype", np.array([5, 1, 1]), np.array([2, 3, 4])),
     ]
 
 
@@ -154,7 +156,8 @@ def _judge(routine, reference, mode, est, scale):
 def _make(law, Ei, Fi):
     from cardillo.rods._material_models import Simo1986, Harsch2021
 
-    return {"Simo1986": Simo1986, "Harsch2021": Harsch2021}[law](np.array(Ei, float), np.array(Fi, float))
+    # the stiffness arrays are handed over with the dtype of the letter (an integer letter stays integer)
+    return {"Simo1986": Simo1986, "Harsch2021": Harsch2021}[law](np.array(Ei), np.array(Fi))
 
 
 def _eval_point(mat, law, Ei, Fi, G, G0, K, K0, names, fails, stats):
